@@ -5,6 +5,7 @@ ENGINES = [
  dict(name='mirsym', path='engine/mirsym.py', serves_properties=['C01', 'C02', 'C05', 'C06'], kind_free_text='symbolic executor for rustc MIR text -> z3 (bit-vector + array theory)'),
  dict(name='x86sym', path='engine/x86sym.py', serves_properties=['C03'], kind_free_text='symbolic executor for the x86-64 subset emitted by src/jit.rs'),
  dict(name='kani', path='kani/ + engine/kani_run.py', serves_properties=['C17', 'C19'], kind_free_text='Kani 0.68 proof harness crate (CBMC 6.11)'),
+ dict(name='clifsym', path='engine/clifsym.py', serves_properties=['C04', 'C11'], kind_free_text='symbolic executor for the Cranelift IR text built by src/cranelift.rs'),
  dict(name='driver', path='driver/', serves_properties=['C01', 'C02', 'C05', 'C06'], kind_free_text='native replay driver (never a deciding step)'),
 ]
 NOTES = 'Solver-based checking of the real code: see DESIGN.md. Exit codes: 0 held, 1 reproduced violation, 2 inconclusive/machinery.'
@@ -51,5 +52,16 @@ CHECKS = {
    text='gather_bytes for all five u64; memfrob on a 10-byte (thorough 24) buffer with symbolic start/len: exactly the addressed bytes XOR 0x2a, involution; strcmp on two NUL-terminated buffers and null pointers; '
         'rand: for all min < max and every generator output the result is in [min,max] and no path panics (dev and release profiles); sqrti: equals trunc(fp.sqrt(x as f64)) for all 64-bit x, exact integer root for x < 2^16 (thorough 2^20).',
    note='bpf_trace_printf (stdout, f64::log) is not decided: no SMT counterpart; sqrti exact-root claim only below the stated bound; rand generator is an environment stub. Trusted: Kani/CBMC, z3 FP theory, rustc MIR.'),
+ 'C04': dict(level='translation_validation', engine='clifsym+mirsym', design_ref='DESIGN.md 5/C04',
+   technique='translation validation: symbolic execution (z3) of the Cranelift IR the real front end built (hook H2), compared with the interpreter (MIR of execute_program executed symbolically on the same program); native enumeration for the refusal of local calls',
+   text='For every opcode x register pairs x immediate/offset classes a whole program around the instruction (operands loaded from symbolic metadata bytes) and a control-flow family are compiled by the real cranelift front end; the CLIF text is '
+        'executed symbolically and z3 shows the returned value and the packet/metadata bytes equal the interpreter\'s for all inputs, and that the compiled code does not trap where the interpreter returns a value. '
+        'Programs with an eBPF-to-eBPF call must be refused by cranelift_compile (family of displacements x helper sets, compiled natively).',
+   note='Trusted: Cranelift lowering/regalloc/ABI (only the eBPF -> CLIF translation is validated), CLIF semantics table of clifsym, rustc MIR, z3. Program shapes are enumerated families; data is unbounded. Non-empty packet for ld_abs/ld_ind (empty-packet context is C09).'),
+ 'C11': dict(level='translation_validation', engine='clifsym', design_ref='DESIGN.md 5/C11',
+   technique='symbolic execution (z3) of the Cranelift IR emitted for every access instruction with symbolic base register and region layout; containment obligations on the accesses actually emitted and on the trap guards',
+   text='For ldx/st/stx/xadd/ldabs/ldind x 4 widths x offset classes: on every CLIF path, each load/store/atomic_rmw lies wholly inside the stack slot, packet or metadata buffer (no wrap), and a bounds-check trap fires only if the access it guards is not wholly inside a region; '
+        'base register, region bases and lengths (incl. empty/absent) are symbolic.',
+   note='Trusted: Cranelift lowering of trapz and of the accesses; CLIF semantics table; z3. Distinct buffers do not overlap.'),
 }
 NOT_APPLICABLE = {}
